@@ -242,6 +242,45 @@ Definition t_variant_shared (invert implicit_temp explicit_stage : bool) (strats
          tlist (fun s => t_strategy_raw explicit_stage (fst v) p s (raw_shared it s (fst v) p)) strats]
   end.
 
+(** ** the premise [same_graph] of the set-level theorems, as a boolean: the writing (host', tpl') is the base writing
+    (host, tpl) renumbered by (pi, sg) and re-ordered.  The harness supplies pi and sg (an isomorphism found by
+    networkx on the parsed graphs); the model checks them. *)
+Definition apply_map (f : list (N * N)) (u : N) : N := match assoc u f with Some v => v | None => u end.
+Definition opt_eqb {A} (eqb : A -> A -> bool) (a b : option A) : bool :=
+  match a, b with Some x, Some y => eqb x y | None, None => true | _, _ => false end.
+Definition closed_edgesb {A B} (g : lgraph A B) : bool :=
+  forallb (fun e : N * N * B => let '(a, b, _) := e in LGraph.mem a (node_ids g) && LGraph.mem b (node_ids g)) (gedges g).
+Definition same_graphb {A B} (aeq : A -> A -> bool) (beq : B -> B -> bool) (g g' : lgraph A B) : bool :=
+  nodupb (node_ids g) && nodupb (node_ids g')
+  && forallb (fun u => LGraph.mem u (node_ids g')) (node_ids g) && forallb (fun u => LGraph.mem u (node_ids g)) (node_ids g')
+  && closed_edgesb g && closed_edgesb g'
+  && forallb (fun u => opt_eqb aeq (label g' u) (label g u)) (node_ids g)
+  && forallb (fun u => forallb (fun v => opt_eqb beq (LGraph.adj g' u v) (LGraph.adj g u v)) (node_ids g)) (node_ids g).
+
+Definition injb (f : list (N * N)) : bool := nodupb (map fst f) && nodupb (map snd f).
+(** [f] is injective as a function on all of N when it permutes its own domain *)
+Definition permb (f : list (N * N)) : bool :=
+  injb f && forallb (fun v => LGraph.mem v (map fst f)) (map snd f).
+
+Definition rewriting_okb (host0 : hostg) (tpl0 : its) (w : hostg * its * list (N * N) * list (N * N)) : bool :=
+  let '(host, tpl, pi, sg) := w in
+  permb pi && permb sg
+  && same_graphb nattr_eqb Z.eqb (relabel (apply_map pi) host0) host
+  && same_graphb inode_eqb iedge_eqb (relabel (apply_map sg) tpl0) tpl
+  && simple_edgesb (gedges tpl0) && simple_edgesb (gedges tpl).
+
 (** one case = one (template, substrate) pair written in several ways; see harness/props/C05.py *)
 Definition run_c05 (invert implicit_temp explicit_stage : bool) (strats : list N) (vs : list (hostg * its)) : tok :=
   tlist (t_variant_shared invert implicit_temp explicit_stage strats) vs.
+
+(** the same with the renumberings between the base writing and the others: every writing is also checked to be a
+    rewriting of the first in the sense of the theorems ([rewriting_okb]) *)
+Definition run_c05w (invert implicit_temp explicit_stage : bool) (strats : list N)
+           (ws : list (hostg * its * list (N * N) * list (N * N))) : tok :=
+  match ws with
+  | [] => L []
+  | w0 :: _ =>
+      let host0 := fst (fst (fst w0)) in let tpl0 := snd (fst (fst w0)) in
+      L [run_c05 invert implicit_temp explicit_stage strats (map (fun w => (fst (fst (fst w)), snd (fst (fst w)))) ws);
+         tlist (fun w => tbool (rewriting_okb host0 tpl0 w)) ws]
+  end.
